@@ -46,6 +46,47 @@ Qed.
 Theorem C20_fixed_scale_classes : forallb fixed_ok fixed_models = true /\ length fixed_models = 24%nat.
 Proof. exact fixed_models_ok. Qed.
 
+(* ---- the connection-scheme axis.  Every convolutional family admits connections='unique' at every scale ... *)
+Theorem C20_unique_scheme_conv_families : forall k, 1 <= k ->
+  unique_all (ClgnMnist_layers k) /\ unique_all (CNN_layers k) /\ unique_all (ClgnCifar10Tiny_layers k)
+  /\ unique_all (ClgnCifar10_nbits1_layers k) /\ unique_all (ClgnCifar10_nbits2_layers k) /\ unique_all (ClgnCifar10_nbits3_layers k)
+  /\ unique_all (ClgnCifar10_nbits4_layers k) /\ unique_all (ClgnCifar10_nbits5_layers k)
+  /\ unique_all (ClgnCifar10Res_nbits1_layers k) /\ unique_all (ClgnCifar10Res_nbits2_layers k) /\ unique_all (ClgnCifar10Res_nbits3_layers k)
+  /\ unique_all (ClgnCifar10Res_nbits4_layers k) /\ unique_all (ClgnCifar10Res_nbits5_layers k).
+Proof.
+  intros k Hk.
+  exact (conj (ClgnMnist_unique k Hk) (conj (CNN_unique k Hk) (conj (ClgnCifar10Tiny_unique k Hk)
+        (conj (ClgnCifar10_1_unique k Hk) (conj (ClgnCifar10_2_unique k Hk) (conj (ClgnCifar10_3_unique k Hk)
+        (conj (ClgnCifar10_4_unique k Hk) (conj (ClgnCifar10_5_unique k Hk)
+        (conj (ClgnCifar10Res_1_unique k Hk) (conj (ClgnCifar10Res_2_unique k Hk) (conj (ClgnCifar10Res_3_unique k Hk)
+        (conj (ClgnCifar10Res_4_unique k Hk) (ClgnCifar10Res_5_unique k Hk))))))))))))).
+Qed.
+(* ... except ClgnCifar10Mini, whose last dense layer (128 k -> 60 k) is narrower than half its input: the full statement
+   "every class x every scale x every connection scheme constructs" is REFUTED for it at every scale (known finding F51);
+   the rest of the class is admissible *)
+Theorem C20_unique_scheme_Mini_refuted : forall k, 1 <= k -> ~ unique_all (ClgnCifar10Mini_layers k).
+Proof. exact ClgnCifar10Mini_unique_refuted. Qed.
+Theorem C20_unique_scheme_Mini_partial : forall k, 1 <= k ->
+  match ClgnCifar10Mini_layers k with
+  | c :: f :: d1 :: d2 :: d3 :: _ => unique_all [c; f; d1; d2; d3]
+  | _ => False
+  end.
+Proof. exact ClgnCifar10Mini_unique_others. Qed.
+(* the dense family admits 'unique' exactly between half the input width and the number of input pairs (neurons = 10 k, resp. 4 k) *)
+Theorem C20_unique_scheme_dense_family : forall k, 1 <= k ->
+  (unique_all (DlgnMnist_layers k) <-> 40 <= k <= 30693)
+  /\ (unique_all (DlgnCifar10_2_4_layers k) <-> 308 <= k <= 1887129)
+  /\ (unique_all (DlgnCifar10_5_5_layers k) <-> 768 <= k <= 11795712)
+  /\ (unique_all (Dlgn_generic_layers k) <-> 2 <= k <= 16).
+Proof.
+  intros k Hk. exact (conj (DlgnMnist_unique k Hk) (conj (DlgnCifar10_2_4_unique k Hk) (conj (DlgnCifar10_5_5_unique k Hk) (Dlgn_generic_unique k Hk)))).
+Qed.
+(* the 24 fixed-scale classes at their defining scale: all admit 'unique' but the four ClgnCifar10Mini sizes *)
+Theorem C20_unique_scheme_fixed_classes :
+  fixed_unique = [true; true; true; true; true; true; true; true; true; true; true; true; true;
+                  false; false; false; false; true; true; true; true; true; true; true].
+Proof. exact fixed_unique_ok. Qed.
+
 Eval compute in "PA:C20_ClgnMnist"%string. Print Assumptions C20_ClgnMnist.
 Eval compute in "PA:C20_ClgnCifar10"%string. Print Assumptions C20_ClgnCifar10.
 Eval compute in "PA:C20_ClgnCifar10Res"%string. Print Assumptions C20_ClgnCifar10Res.
@@ -55,3 +96,8 @@ Eval compute in "PA:C20_CNN"%string. Print Assumptions C20_CNN.
 Eval compute in "PA:C20_Dlgn"%string. Print Assumptions C20_Dlgn.
 Eval compute in "PA:C20_exceptional_scales"%string. Print Assumptions C20_exceptional_scales.
 Eval compute in "PA:C20_fixed_scale_classes"%string. Print Assumptions C20_fixed_scale_classes.
+Eval compute in "PA:C20_unique_scheme_conv_families"%string. Print Assumptions C20_unique_scheme_conv_families.
+Eval compute in "PA:C20_unique_scheme_Mini_refuted"%string. Print Assumptions C20_unique_scheme_Mini_refuted.
+Eval compute in "PA:C20_unique_scheme_Mini_partial"%string. Print Assumptions C20_unique_scheme_Mini_partial.
+Eval compute in "PA:C20_unique_scheme_dense_family"%string. Print Assumptions C20_unique_scheme_dense_family.
+Eval compute in "PA:C20_unique_scheme_fixed_classes"%string. Print Assumptions C20_unique_scheme_fixed_classes.
